@@ -66,6 +66,11 @@ CHECKS = {
             "TLC checks on the design that the arrows are sound and complete and that the pass-through walk ends on cyclic pass-through sets; for TLC-generated random models (5 applications, calls nested in every block kind, pass-through chains and cycles, projects with two views generated in one run, plain/clustered/endpoint-analysis views) the real IntsBuilder's dependency list and the arrows read back from the PlantUML text must satisfy the same Sound/Complete predicates; a crash, stack exhaustion or hang is an unexplained event.",
             "Listed and excluded sets disjoint; ~human/~hidden not generated; endpoint-analysis view judged on the dependency list only.",
             "DESIGN.md §6 C14"),
+    "C15": ("model_checking",
+            "TLA+ spec DataModel.tla (expected classes, fields and relationship multiset from the type graph; Judge over the diagram's class/field/edge lines; intended generator) model-checked by TLC on all small type graphs; diagrams generated by the real code for TLC-generated type graphs, parsed into classes, fields and relationship lines and judged by TLC (DataModelTrace.tla)",
+            "TLC shows that a generator following the rules satisfies every clause on all type graphs of 3 types x 4 reference fields (satisfiability), then judges the per-application diagram of every application of TLC-generated programs (tuples, tables, enums, primitive and collection aliases, unions; primitive, optional, set/sequence-wrapped, local, self, repeated and cross-application references; namespaced applications): exactly one class per covered type, every field listed, one relationship line per referring field to a drawn type, no line to an alias that no class declares unless the target lives in another application.",
+            "Project-manner generation with one application per view; multiplicity labels and field type texts not compared; field references (T.f) from tuples are neither required nor forbidden.",
+            "DESIGN.md §6 C15"),
 }
 
 PENDING = {}
